@@ -504,6 +504,8 @@ _TXT = ([], ("strings", "bl"))
 _DS = ([("key_tag", "u"), ("algorithm", "u"), ("digest_type", "u")], ("digest", "b"))
 _TLSA = ([("usage", "u"), ("selector", "u"), ("mtype", "u")], ("cert", "b"))
 _DNSKEY = ([("flags", "u"), ("protocol", "u"), ("algorithm", "u")], ("key", "b"))
+_RRSIG = ([("type_covered", "u"), ("algorithm", "u"), ("labels", "u"), ("original_ttl", "u"), ("expiration", "u"), ("inception", "u"),
+           ("key_tag", "u"), ("signer", "nm")], ("signature", "b"))
 # type -> (prefix fields [(slot, kind)], tail (slot, kind) | None); mirrors Model.RdataText.schemaOf
 MODEL = {
     "A": ([("address", "ip4")], None), "AAAA": ([("address", "ip6")], None),
@@ -527,8 +529,15 @@ MODEL = {
     "L32": ([("preference", "u"), ("locator32", "ip4")], None),
     "NSEC3PARAM": ([("algorithm", "u"), ("flags", "u"), ("iterations", "u"), ("salt", "b")], None),
     "CH-A": ([("domain", "nm"), ("address", "u")], None),
+    "EUI48": ([("eui", "b")], None), "EUI64": ([("eui", "b")], None),
+    "NID": ([("preference", "u"), ("nodeid", "wire2")], None), "L64": ([("preference", "u"), ("locator64", "wire2")], None),
+    "NSAP": ([("address", "b")], None),
+    "CERT": ([("certificate_type", "u"), ("key_tag", "u"), ("algorithm", "u")], ("certificate", "b")),
+    "DSYNC": ([("rrtype", "u"), ("scheme", "u"), ("port", "u"), ("target", "nm")], None),
+    "KEY": _DNSKEY,
+    "RRSIG": _RRSIG, "SIG": _RRSIG,
 }
-B64_TAIL = {"DNSKEY", "CDNSKEY", "DHCID", "OPENPGPKEY", "BRID", "HHIT"}
+B64_TAIL = {"DNSKEY", "CDNSKEY", "DHCID", "OPENPGPKEY", "BRID", "HHIT", "CERT", "KEY", "RRSIG", "SIG"}
 TXT_LIKE = {"TXT", "SPF", "AVC", "NINFO", "RESINFO", "WALLET"}
 
 
@@ -554,7 +563,7 @@ def _fv(v, kind):
 
 def dump(tname, rd):
     fields, tail = MODEL[tname]
-    out = [_fv(getattr(rd, slot), kind) for slot, kind in fields]
+    out = [("b" + hx(rd.to_wire()[2:])) if kind == "wire2" else _fv(getattr(rd, slot), kind) for slot, kind in fields]
     out.append("/")
     out.append("-" if tail is None else _fv(getattr(rd, tail[0]), tail[1]))
     return " ".join(out)
@@ -833,7 +842,17 @@ NAME_ATOMS = ["@", ".", "a.", "a", "a.b", "www.example.", "a..b", "\\.", "\\046.
 BLOB_ATOMS = ["00", "ff", "abcd", "ABCD", "abc", "0g", "a b", "AA==", "AAA=", "AAAA", "A===", "=", "AA", "QUJD", "QU JD", "QUJDRA==", "Zm9v", "Zm9", "Zg=="]
 ADDR_ATOMS = ["1.2.3.4", "01.2.3.4", "256.1.1.1", "1.2.3", "1.2.3.4.5", "0.0.0.0", "255.255.255.255", "::", "::1", "1::", "::1.2.3.4", "::ffff:1.2.3.4",
               "1:2:3:4:5:6:7:8", "1:2:3:4:5:6:7::", "::2:3:4:5:6:7:8", ":1", "1:", ":::", "12345::", "g::", "1::2::3", "FFFF::", "0:0:0:0:0:0:0:0", "1.2.3.4\\010"]
-MISC_ATOMS = ["RSASHA256", "rsasha1", "PRIVATEOID", "8", "256", "PKIX", "A", "NS", "TYPE1", "TYPE65536", "TYPE0", "NOTIFY", "N", "S", "E", "W", "10m", "-100001m",
+MISC_ATOMS = ["NOKEY", "NOCONF|ZONE", "NOAUTH|NOCONF", "ZONE|SIG3", "NOKEY|", "nokey", "49152", "0xC000", "DNSSEC", "ALL", "TLS", "tls", "256",
+              "NSAP-PTR", "NSAP_PTR", "nsap-ptr", "TYPE01", "type1", "TYPE65535", "TYPE", "TYPE-1", "NONE", "ANY", "A-", "-A",
+              "20380119031407", "19700101000000", "21060207062815", "21060207062816", "20240229120000", "20230229120000", "20241301000000",
+              "20240100000000", "2024011x000000", "+0240101000000", "2024_101000000", "00000101000000", "00010101000000", "4294967295", "4294967296",
+              "01700000000", "1700000000", "170000000000", "99991231235959", "20240101-10000", "20240101996060",
+              "PKIX", "pkix", "OID", "URI", "253", "65536", "-0", "+7", "0007", "RSASHA256", "ED25519", "ed448", "PRIVATEOID", "17", "INDIRECT",
+              "0x1f:0001:0002:0003", "+1ff:0001:0002:0003", "1_ff:0001:0002:0003", "0b11:0001:0002:0003", "-001:0001:0002:0003",
+              "0X_f:0001:0002:0003", "0014:4fff:ff20:ee64", "0014:4fff:ff20:ee6", "0014-4fff-ff20-ee64", "\\0320ff:0001:0002:0003",
+              "00-00-5e-00-53-2a", "00-00-5e-ef-10-00-00-2a", "00-00-5E-00-53-2A", "-0-00-5e-00-53-2a", "0000-5e-00-53-2a", "00-00-5e-00-53",
+              "0x", "0x47.0005.80", "0x47000580", "0X47", "0x4", "x47", "0x4g",
+              "RSASHA256", "rsasha1", "PRIVATEOID", "8", "256", "PKIX", "A", "NS", "TYPE1", "TYPE65536", "TYPE0", "NOTIFY", "N", "S", "E", "W", "10m", "-100001m",
               "99999999999m", "nanm", "infm", "1e3m", "4435.61m", "0.07m", "90000000.00m", "(", ")", ";c", "TCP", "tcp", "smtp", "0x", "0xab", "-", "!1:1.2.3.4/8",
               "1:0.0.0.0/0", "3:ab/8", "alpn=h2", 'alpn="h2,h3"', "port=53", "no-default-alpn", "key65280=abc", "mandatory=alpn", "20240101000000", "1700000000"]
 ALL_ATOMS = NUM_ATOMS + STR_ATOMS + NAME_ATOMS + BLOB_ATOMS + ADDR_ATOMS + MISC_ATOMS
@@ -1075,7 +1094,7 @@ def gen_ft(ctx: Ctx, scale: float, rng):
 # per-type status of the Lean side (mirrors C05.provedTypes / Model.modelledTypes; the oracle covers every type)
 PROVED = ["A", "AAAA", "NS", "CNAME", "PTR", "DNAME", "NSAP-PTR", "MX", "AFSDB", "RT", "KX", "LP", "PX", "SRV", "RP", "SOA", "TXT", "SPF", "AVC",
           "NINFO", "RESINFO", "WALLET", "HINFO", "X25", "ISDN", "NAPTR", "CAA", "URI", "DS", "DLV", "CDS", "TLSA", "SMIMEA", "SSHFP", "ZONEMD", "DNSKEY",
-          "CDNSKEY", "DHCID", "OPENPGPKEY", "BRID", "HHIT", "L32", "NSEC3PARAM"]
+          "CDNSKEY", "DHCID", "OPENPGPKEY", "BRID", "HHIT", "L32", "NSEC3PARAM", "CH-A", "EUI48", "EUI64", "NID", "L64", "NSAP", "CERT", "DSYNC", "KEY", "RRSIG", "SIG"]
 
 
 def type_status():
